@@ -6,8 +6,122 @@ use serde_json::{json, Value};
 
 use crate::bfs::{bfs, replay_path, System};
 use crate::props::c12::absorb_bfs;
-use crate::report::{Ctx, Report, Violation};
+use crate::report::{Acc, Ctx, Report, Violation};
+use crate::util::par_range;
 use crate::signsys::*;
+
+/// Message sequences that drive a fresh sign (address `a`) into each protocol state (14 = the 13 states plus
+/// ready-to-reset with a complete page still buffered).
+pub fn drive_sequences(a: u16, automatic: bool) -> Vec<(String, Vec<flipdot_core::Message<'static>>)> {
+    use flipdot_core::{Address, ChunkCount, Data, Message, Offset, Operation};
+    let ad = Address(a);
+    let req = |o: Operation| Message::RequestOperation(ad, o);
+    let block = Message::SendData(Offset(0), Data::try_new(custom_block(12, 8, 0xEE)).unwrap());
+    let chunk = Message::SendData(Offset(0), Data::try_new(vec![0x11u8; 16]).unwrap());
+    let cnt = |n: u16| Message::DataChunksSent(ChunkCount(n));
+    let cfg = vec![req(Operation::ReceiveConfig), block.clone(), cnt(1)];
+    let with = |base: &Vec<Message<'static>>, more: Vec<Message<'static>>| {
+        let mut v = base.clone();
+        v.extend(more);
+        v
+    };
+    let pix_in = with(&cfg, vec![req(Operation::ReceivePixels)]);
+    let pix_rx = with(&pix_in, vec![chunk.clone(), cnt(1)]);
+    let loaded = with(&pix_rx, vec![Message::PixelsComplete(ad)]);
+    let mut v = vec![
+        ("Unconfigured".to_string(), vec![]),
+        ("ConfigInProgress".to_string(), vec![req(Operation::ReceiveConfig)]),
+        ("ConfigReceived".to_string(), cfg.clone()),
+        ("ConfigFailed".to_string(), vec![req(Operation::ReceiveConfig), cnt(5)]),
+        ("PixelsInProgress".to_string(), with(&pix_in, vec![chunk.clone()])),
+        ("PixelsReceived".to_string(), pix_rx.clone()),
+        ("PixelsFailed".to_string(), with(&pix_in, vec![chunk.clone(), cnt(9)])),
+        (if automatic { "ShowingPages" } else { "PageLoaded" }.to_string(), loaded.clone()),
+        ("ReadyToReset".to_string(), vec![req(Operation::StartReset)]),
+        ("ReadyToReset+buffered-page".to_string(), with(&pix_in, vec![chunk.clone(), req(Operation::StartReset)])),
+    ];
+    if !automatic {
+        let show = with(&loaded, vec![req(Operation::ShowLoadedPage)]);
+        let shown = with(&show, vec![Message::QueryState(ad)]);
+        v.push(("PageShowInProgress".to_string(), show));
+        v.push(("PageShown".to_string(), shown.clone()));
+        v.push(("PageLoadInProgress".to_string(), with(&shown, vec![req(Operation::LoadNextPage)])));
+    }
+    v
+}
+
+/// "A message for an address nobody has gets no reply and changes nothing": for every pair of protocol states of a
+/// two-sign bus, every addressed message kind is delivered to EVERY one of the 65534 absent addresses.
+pub fn absent_address_sweep(rep: &mut Report) {
+    use flipdot_core::{Address, Message, Operation, PageFlipStyle, SignBus};
+    use flipdot_testing::{VirtualSign, VirtualSignBus};
+    let (a0, a1) = (3u16, 0x0105u16);
+    let seq0 = drive_sequences(a0, false);
+    let seq1 = drive_sequences(a1, true);
+    let mut states: Vec<(String, VirtualSignBus<'static>)> = vec![];
+    for (n0, s0) in &seq0 {
+        for (n1, s1) in &seq1 {
+            let mut bus = VirtualSignBus::new(vec![VirtualSign::new(Address(a0), PageFlipStyle::Manual), VirtualSign::new(Address(a1), PageFlipStyle::Automatic)]);
+            // drive sign 1 first, then sign 0, keeping unaddressed traffic from disturbing the other: sign 1's data
+            // messages only reach sign 0 while it is not receiving
+            for m in s1 {
+                let _ = bus.process_message(m.clone());
+            }
+            let keep1 = bus.sign(1).clone();
+            for m in s0 {
+                let _ = bus.process_message(m.clone());
+            }
+            if bus.sign(1) != &keep1 {
+                continue; // sign 0's transfer interfered legitimately (both receiving): skip this pair
+            }
+            states.push((format!("{} / {}", n0, n1), bus));
+        }
+    }
+    let kinds: Vec<Box<dyn Fn(Address) -> Message<'static> + Sync>> = vec![
+        Box::new(Message::Hello),
+        Box::new(Message::QueryState),
+        Box::new(Message::PixelsComplete),
+        Box::new(Message::Goodbye),
+        Box::new(|a| Message::RequestOperation(a, Operation::ReceiveConfig)),
+        Box::new(|a| Message::RequestOperation(a, Operation::ReceivePixels)),
+        Box::new(|a| Message::RequestOperation(a, Operation::ShowLoadedPage)),
+        Box::new(|a| Message::RequestOperation(a, Operation::LoadNextPage)),
+        Box::new(|a| Message::RequestOperation(a, Operation::StartReset)),
+        Box::new(|a| Message::RequestOperation(a, Operation::FinishReset)),
+    ];
+    let n = states.len() as u64 * kinds.len() as u64;
+    let accs = par_range(n, 1, Acc::default, |acc, i| {
+        let (ref name, ref bus) = states[(i / kinds.len() as u64) as usize];
+        let k = (i % kinds.len() as u64) as usize;
+        let mut work = bus.clone();
+        for addr in 0..=65535u16 {
+            if addr == a0 || addr == a1 {
+                continue;
+            }
+            acc.evals += 1;
+            let m = kinds[k](Address(addr));
+            let r = crate::util::catch(|| work.process_message(m.clone()).map(|o| o.is_some()).unwrap_or(true));
+            let bad = match r {
+                Err(_) => Some("panicked"),
+                Ok(true) => Some("replied"),
+                Ok(false) if &work != bus => Some("changed-the-bus"),
+                _ => None,
+            };
+            if let Some(what) = bad {
+                acc.violation("C14", Violation::new("absent-address-silent", format!("{}:{}", what, crate::refmodel::kind_name(&m)), format!("{} for the absent address {:04X} on a bus with signs {:04X},{:04X} in states [{}]: {}", crate::refmodel::msg_str(&m), addr, a0, a1, name, what), json!({"kind": "absent", "state_index": i / kinds.len() as u64, "message_kind": k, "addr": addr}), (1u64 << 50) | (i << 16) | addr as u64));
+                work = bus.clone();
+            }
+        }
+        acc.outcomes.add("absent-sweep-job");
+    });
+    let mut all = Acc::default();
+    for a in accs {
+        all.merge("C14", a);
+    }
+    rep.transitions += all.evals;
+    rep.set("absent_address_sweep", json!({"bus_states": states.len(), "message_kinds": kinds.len(), "addresses_each": 65534, "deliveries": all.evals}));
+    rep.absorb(all);
+}
 
 pub fn run(ctx: &Ctx) -> Report {
     let mut rep = Report::new(ctx);
@@ -15,7 +129,7 @@ pub fn run(ctx: &Ctx) -> Report {
     rep.rule = "E2: breadth-first search over the real VirtualSignBus with n = 1..4 signs (mixed flip styles, both insertion orders), messages to every present and one absent address plus unaddressed \
                 data/count messages, to a fixed point under per-sign size bounds. Reference: each sign also exists as an isolated real VirtualSign that receives only messages addressed to it and \
                 unaddressed messages while it is receiving; after every transition the bus reply must equal the addressed isolated sign's reply and every sign's state/type/pages must equal its \
-                isolated twin. distinct_nontrivial = distinct stored states other than the initial one"
+                isolated twin. Plus a directed sweep: for every pair of protocol states of a two-sign bus, each of the 10 addressed message kinds is delivered to EVERY absent 16-bit address and must get no reply and change nothing. distinct_nontrivial = distinct stored states other than the initial one"
         .into();
     rep.trusted_base = vec!["bfs.rs explorer".into(), "the isolation reference is the real VirtualSign itself, run alone".into(), "refsign.rs only for size bounds".into()];
     let mut runs = vec![];
@@ -51,6 +165,7 @@ pub fn run(ctx: &Ctx) -> Report {
         }
     }
     rep.set("stateright_cross_check", Value::Array(xs));
+    absent_address_sweep(&mut rep);
     rep.set("bfs_runs", Value::Array(runs));
     let diverged = !rep.violations.is_empty();
     rep.guard("two-signs-mid-transfer-at-once", tags_all & T_TWO_RECEIVING != 0 || diverged, "a state with two signs receiving was expanded");
@@ -63,6 +178,12 @@ pub fn run(ctx: &Ctx) -> Report {
 }
 
 pub fn replay(_ctx: &Ctx, case: &Value) -> Result<Vec<Violation>, String> {
+    if case["kind"].as_str() == Some("absent") {
+        // re-run the sweep job this case belongs to and report what it finds for that message kind
+        let mut rep = Report::new(_ctx);
+        absent_address_sweep(&mut rep);
+        return Ok(rep.violations.into_values().collect());
+    }
     if case["kind"].as_str() != Some("path") {
         return Err("unknown case kind".into());
     }
